@@ -145,103 +145,110 @@ impl<'a> World<'a> {
     fn fresh_mount_compare(&mut self, vol: usize, tree: &fatspec::Tree) {
         let g = self.vols[vol].geom.clone();
         let slot = self.vols[vol].mbr_slot;
-        let clock = SimClock::new(self.clock.secs.get());
-        let mut problems: Vec<(String, String)> = Vec::new();
-        let st = self.disk.st.borrow();
-        let ro = RoDisk::new(&st.image);
-        let r = std::panic::catch_unwind(std::panic::AssertUnwindSafe(|| {
-            let fs = make_fs((4, 4, 1), &ro, &clock, 77);
-            let mut out: Vec<(String, String)> = Vec::new();
-            let v = match fs.open_volume(slot as usize, 0) {
-                Ok(v) => v,
-                Err(e) => {
-                    out.push(("mount".into(), format!("{:?}", e)));
-                    return out;
-                }
-            };
-            // walk by paths; at most 3 directory handles at once (root + current + child)
-            for (ti, td) in tree.dirs.iter().enumerate() {
-                let root = match fs.open_root_dir(v, 0) {
-                    Ok(d) => d,
-                    Err(e) => {
-                        out.push(("open-root".into(), format!("{:?}", e)));
-                        return out;
-                    }
-                };
-                let mut cur = root;
-                let mut ok = true;
-                for comp in &td.path {
-                    let nm = match crate::names::sfn_to_string(comp) {
-                        Some(s) => s,
-                        None => {
-                            ok = false;
-                            break;
-                        }
-                    };
-                    match fs.open_dir(cur, &Name::Str(nm), 0) {
-                        Ok(d) => {
-                            let _ = fs.close_dir(cur, 0);
-                            cur = d;
-                        }
-                        Err(e) => {
-                            out.push(("open-dir".into(), format!("/{}: {:?}", td.path.iter().map(fatspec::name_str).collect::<Vec<_>>().join("/"), e)));
-                            ok = false;
-                            break;
-                        }
-                    }
-                }
-                if ok {
-                    let mut listing: Vec<([u8; 11], u32, u8)> = Vec::new();
-                    if let Err(e) = fs.iterate(cur, 0, &mut |de| listing.push((sfn_bytes(&de.name), de.size, attr_bits(&de.attributes)))) {
-                        out.push(("iterate".into(), format!("{:?}", e)));
-                    }
-                    let want: Vec<([u8; 11], u32, u8)> = td.ents.iter().map(|e| (e.name, e.size, e.attr & 0x3F)).collect();
-                    if listing != want {
-                        out.push(("listing".into(), format!("dir {}: library {} entries, reader {}", ti, listing.len(), want.len())));
-                    }
-                    for f in tree.files.iter().filter(|f| f.dir == ti) {
-                        let e = &td.ents[f.ent_idx];
-                        if e.size > (1 << 20) {
-                            continue;
-                        }
-                        let nm = match crate::names::sfn_to_string(&e.name) {
-                            Some(s) => s,
-                            None => continue,
-                        };
-                        match fs.open_file(cur, &Name::Str(nm.clone()), Mode::ReadOnly, 0) {
-                            Ok(fh) => {
-                                let mut buf = vec![0u8; e.size as usize + 7];
-                                let n = fs.read(fh, &mut buf, 0);
-                                let want = fatspec::read_chain_bytes(ro.image, &g, &f.chain, e.size);
-                                match n {
-                                    Ok(n) if n == e.size as usize && buf[..n] == want[..] => {}
-                                    Ok(n) => out.push(("file-content".into(), format!("{}: library read {} bytes, reader {}", nm, n, want.len()))),
-                                    Err(er) => out.push(("file-read".into(), format!("{}: {:?}", nm, er))),
-                                }
-                                let _ = fs.close_file(fh, 0);
-                            }
-                            Err(er) => out.push(("file-open".into(), format!("{}: {:?}", nm, er))),
-                        }
-                    }
-                }
-                let _ = fs.close_dir(cur, 0);
-            }
-            // the volume is deliberately not closed: closing would store the FSInfo record
-            out
-        }));
-        let wrote = ro.wrote.get();
-        drop(st);
-        match r {
-            Ok(v) => problems.extend(v),
-            Err(_) => problems.push(("panic".into(), crate::last_panic_location())),
-        }
-        if wrote > 0 {
-            problems.push(("read-only-walk-wrote".into(), format!("{} writes", wrote)));
-        }
+        let problems = {
+            let st = self.disk.st.borrow();
+            lib_tree_compare(&st.image, slot, &g, tree, self.clock.secs.get())
+        };
         for (o, d) in problems {
             self.violate("C02", &format!("fresh-mount/{}", o), "", d);
         }
     }
+}
+
+/// Walk a volume with a brand-new VolumeManager over a read-only view of `image` and compare
+/// names, sizes, attributes and file contents with the independent reader's tree.
+pub fn lib_tree_compare(image: &crate::disk::Image, slot: u8, g: &fatspec::Geom, tree: &fatspec::Tree, secs: u64) -> Vec<(String, String)> {
+    let clock = SimClock::new(secs);
+    let mut problems: Vec<(String, String)> = Vec::new();
+    let ro = RoDisk::new(image);
+    let r = std::panic::catch_unwind(std::panic::AssertUnwindSafe(|| {
+        let fs = make_fs((4, 4, 1), &ro, &clock, 77);
+        let mut out: Vec<(String, String)> = Vec::new();
+        let v = match fs.open_volume(slot as usize, 0) {
+            Ok(v) => v,
+            Err(e) => {
+                out.push(("mount".into(), format!("{:?}", e)));
+                return out;
+            }
+        };
+        for (ti, td) in tree.dirs.iter().enumerate() {
+            let root = match fs.open_root_dir(v, 0) {
+                Ok(d) => d,
+                Err(e) => {
+                    out.push(("open-root".into(), format!("{:?}", e)));
+                    return out;
+                }
+            };
+            let mut cur = root;
+            let mut ok = true;
+            for comp in &td.path {
+                let nm = match crate::names::sfn_to_string(comp) {
+                    Some(s) => s,
+                    None => {
+                        ok = false;
+                        break;
+                    }
+                };
+                match fs.open_dir(cur, &Name::Str(nm), 0) {
+                    Ok(d) => {
+                        let _ = fs.close_dir(cur, 0);
+                        cur = d;
+                    }
+                    Err(e) => {
+                        out.push(("open-dir".into(), format!("/{}: {:?}", td.path.iter().map(fatspec::name_str).collect::<Vec<_>>().join("/"), e)));
+                        ok = false;
+                        break;
+                    }
+                }
+            }
+            if ok {
+                let mut listing: Vec<([u8; 11], u32, u8)> = Vec::new();
+                if let Err(e) = fs.iterate(cur, 0, &mut |de| listing.push((sfn_bytes(&de.name), de.size, attr_bits(&de.attributes)))) {
+                    out.push(("iterate".into(), format!("{:?}", e)));
+                }
+                let want: Vec<([u8; 11], u32, u8)> = td.ents.iter().map(|e| (e.name, e.size, e.attr & 0x3F)).collect();
+                if listing != want {
+                    out.push(("listing".into(), format!("dir {}: library {} entries, reader {}", ti, listing.len(), want.len())));
+                }
+                for f in tree.files.iter().filter(|f| f.dir == ti) {
+                    let e = &td.ents[f.ent_idx];
+                    if e.size > (1 << 20) {
+                        continue;
+                    }
+                    let nm = match crate::names::sfn_to_string(&e.name) {
+                        Some(s) => s,
+                        None => continue,
+                    };
+                    match fs.open_file(cur, &Name::Str(nm.clone()), Mode::ReadOnly, 0) {
+                        Ok(fh) => {
+                            let mut buf = vec![0u8; e.size as usize + 7];
+                            let n = fs.read(fh, &mut buf, 0);
+                            let want = fatspec::read_chain_bytes(ro.image, g, &f.chain, e.size);
+                            match n {
+                                Ok(n) if n == e.size as usize && buf[..n] == want[..] => {}
+                                Ok(n) => out.push(("file-content".into(), format!("{}: library read {} bytes, reader {}", nm, n, want.len()))),
+                                Err(er) => out.push(("file-read".into(), format!("{}: {:?}", nm, er))),
+                            }
+                            let _ = fs.close_file(fh, 0);
+                        }
+                        Err(er) => out.push(("file-open".into(), format!("{}: {:?}", nm, er))),
+                    }
+                }
+            }
+            let _ = fs.close_dir(cur, 0);
+        }
+        // the volume is deliberately not closed: closing would store the FSInfo record
+        out
+    }));
+    let wrote = ro.wrote.get();
+    match r {
+        Ok(v) => problems.extend(v),
+        Err(_) => problems.push(("panic".into(), crate::last_panic_location())),
+    }
+    if wrote > 0 {
+        problems.push(("read-only-walk-wrote".into(), format!("{} writes", wrote)));
+    }
+    problems
 }
 
 pub fn _unused(_f: &dyn Fs) {}
